@@ -204,6 +204,9 @@ structure St where
   /-- the history started from a genesis whose pool already misses the unstaking validators' tokens: the pool
   equation is reported once (known finding) and not monitored for the rest of this history -/
   poolOff : Bool := false
+  /-- C24 ghost: addresses whose waiting-to-unstake entry was seen without a record (its node was paid out and
+  deleted) and has neither left the set nor been renewed by an accepted begin-unstake request since -/
+  stale : List Addr := []
   deriving Inhabited
 
 def init (prop : String) : St := { prop := prop }
@@ -291,6 +294,19 @@ def checkC24 (kind : String) (h t : Int) (pre post : State) : List Fail :=
   fails poolPaid "stake-payout-pool-mismatch" s!"pool {pre.pool} -> {post.pool}" ++
   fails (!isEnd || Spec.noOverdue post t) "stake-overdue-not-paid" ""
 
+/-- C24, history level: a staked record that leaves the staked state at a session end although the only reason is
+a waiting entry left behind by an earlier, already paid-out record of the same address (`stale`), i.e. the
+current record was neither asked (accepted begin-unstake since) nor forced (jailed with a stake below the minimum,
+or jailed for too long) to leave -/
+def checkStale (kind : String) (h : Int) (stale : List Addr) (pre post : State) : List Fail :=
+  let sessionEnd := kind = "end" && (h % pre.params.blocksPerSession == 0)
+  let forced (p : Addr × Val) : Bool :=
+    p.2.jailed && (decide (p.2.tokens < pre.params.minStake) ||
+      decide (((aget pre.signInfo p.1).map (·.jailedBlocks)).getD 0 + 1 > pre.params.maxJailedBlocks))
+  let left := pre.vals.filter fun p => p.2.status = .staked ∧ ((aget post.vals p.1).map (·.status)) ≠ some .staked
+  let bad := left.filter fun p => sessionEnd && p.1 ∈ stale && !forced p
+  fails bad.isEmpty "unstaked-by-stale-waiting-entry" s!"{bad.map fun p => rB p.1}"
+
 /-- tokens removed from records that exist before and after -/
 def burnedOf (pre post : State) : List (Addr × Int) :=
   pre.vals.filterMap fun p => match aget post.vals p.1 with
@@ -325,6 +341,7 @@ structure Outcome where
   extra : List Fail := []      -- transition-level property failures (with their property id prefix)
   extraProp : String := ""
   surplus : Int := 0
+  justified : List Addr := []  -- addresses of an accepted begin-unstake request (C24 ghost)
 
 def joinFails (l : List Fail) : Option Fail := l.head?
 
@@ -333,7 +350,9 @@ def judge (σ : St) (kind : String) (h t : Int) (pre : State) (pp : Parsed) (o :
   let post0 := pp.st
   let (tm, unknown) := applyImplUpdates pre post0 pre.tmSet us
   let post := { post0 with tmSet := tm }
-  let σ' := { σ with cur := some post, surplus := σ.surplus + o.surplus }
+  let stale' := (((σ.stale.filter fun a => !o.justified.contains a) ++
+      post.waiting.filter fun a => (aget post.vals a).isNone).eraseDups).filter fun a => post.waiting.contains a
+  let σ' := { σ with cur := some post, surplus := σ.surplus + o.surplus, stale := if kind = "genesis" then [] else stale' }
   if !pp.bad.isEmpty then (σ', .bad s!"unparsed words {pp.bad.take 3}") else
   let pf : List Fail :=
     (if o.extraProp = σ.prop then o.extra else []) ++
@@ -341,7 +360,7 @@ def judge (σ : St) (kind : String) (h t : Int) (pre : State) (pp : Parsed) (o :
      | "C19" => checkC19 σ' post
      | "C21" => checkC21 post pp.anomalies
      | "C22" => if kind = "end" || kind = "genesis" then checkC22 h pre post us ++ fails unknown.isEmpty "update-unknown-key" s!"{unknown}" else []
-     | "C24" => if kind = "genesis" then [] else checkC24 kind h t pre post
+     | "C24" => if kind = "genesis" then [] else checkC24 kind h t pre post ++ checkStale kind h σ.stale pre post
      | "C25" => if kind = "genesis" then [] else checkC25 kind pre post
      | _ => [])
   match pf.head? with
@@ -493,7 +512,9 @@ def step (σ : St) (pre post : List String) : St × Verdict :=
         | some h, some a, some sg, some fee =>
           if !charged then unchanged h "unstake" else
           let (m, r) := handleBeginUnstake (withFee cur sg fee) a sg
-          judge σ "unstake" h 0 cur pp { model := m, modelNote := if resCode r = code then "" else s!"code model={resCode r} impl={code}" } []
+          let note := if resCode r = code then "" else s!"code model={resCode r} impl={code}"
+          let just : List Addr := if code = "0/" then [a] else []
+          judge σ "unstake" h 0 cur pp { model := m, modelNote := note, justified := just } []
         | _, _, _, _ => (σ, .bad "unstake args")
       | "unjail", [h, t, _now, a, sg, fee] =>
         -- (`_now` = wall clock of the harness when the transaction was delivered: informational only — since /repo 286039a
